@@ -181,7 +181,7 @@ class C06(Property):
             kinds.append("trunc")     # pvl.new has its own bytes path
 
         custom = (not use_new) and rng.random() < 0.1 and \
-            rng.choice([True, "plain"])
+            rng.choice([True, "plain", "decimal"])
 
         def do(case, nontrivial=True):
             if custom:
